@@ -74,6 +74,21 @@ impl Scenario {
     }
 }
 
+/// The daemon under observation dies with the process that started it (a scenario that is cut short by its time
+/// limit must not leave a daemon behind).
+fn daemon_command(bin: &str) -> std::process::Command {
+    use std::os::unix::process::CommandExt;
+    let mut c = std::process::Command::new(bin);
+    // SAFETY: prctl is async-signal-safe; nothing else happens between fork and exec
+    unsafe {
+        c.pre_exec(|| {
+            libc::prctl(libc::PR_SET_PDEATHSIG, libc::SIGKILL);
+            Ok(())
+        });
+    }
+    c
+}
+
 pub fn binary(ctx: &Ctx) -> String {
     std::env::var("PLAIN_TARGET").map(|t| format!("{t}/release/clockbound")).unwrap_or_else(|_| ctx.verif_dir.join("target/plain/release/clockbound").to_string_lossy().to_string())
 }
@@ -327,7 +342,7 @@ pub fn run_scenario(bin: &str, sc: &Scenario) -> Result<Value, String> {
             }
             std::process::Stdio::null()
         };
-        let mut child = match std::process::Command::new(&bin).args(&sc.args).envs(sc.env.iter().cloned()).stdin(std::process::Stdio::null()).stdout(sink(1)).stderr(sink(2)).spawn() {
+        let mut child = match daemon_command(&bin).args(&sc.args).envs(sc.env.iter().cloned()).stdin(std::process::Stdio::null()).stdout(sink(1)).stderr(sink(2)).spawn() {
             Ok(c) => c,
             Err(e) => return json!({"unavailable": format!("cannot start {bin}: {e}")}),
         };
@@ -438,7 +453,7 @@ pub fn run_worker_death(bin: &str, shim: &str, uptime_s: u64, restart: bool, one
         let mark = "/run/cbv-early";
         let uptime_s = uptime_s.min((raw_mono_ns() / 2_000_000_000) as u64);
         let start = || {
-            std::process::Command::new(&bin).args(["-r", "PHC0", "-i", IFACE]).env("LD_PRELOAD", &shim).env("CBV_SHIM_EARLY_S", uptime_s.to_string()).env("CBV_SHIM_EARLY_MARK", mark)
+            daemon_command(&bin).args(["-r", "PHC0", "-i", IFACE]).env("LD_PRELOAD", &shim).env("CBV_SHIM_EARLY_S", uptime_s.to_string()).env("CBV_SHIM_EARLY_MARK", mark)
                 .stdin(std::process::Stdio::null()).stdout(std::process::Stdio::null()).stderr(std::process::Stdio::null()).spawn()
         };
         let mut child = match start() {
@@ -571,7 +586,7 @@ pub fn run_stalled_daemon(bin: &str, shim: &str, stall: &str, preexisting: Optio
             let _ = std::fs::write(shm, bytes);
         }
         let mark = "/run/cbv-stalled";
-        let mut child = match std::process::Command::new(&bin).env("LD_PRELOAD", &shim).env("CBV_SHIM_STALL", &stall).env("CBV_SHIM_MARK", mark)
+        let mut child = match daemon_command(&bin).env("LD_PRELOAD", &shim).env("CBV_SHIM_STALL", &stall).env("CBV_SHIM_MARK", mark)
             .stdin(std::process::Stdio::null()).stdout(std::process::Stdio::null()).stderr(std::process::Stdio::null()).spawn() {
             Ok(c) => c,
             Err(e) => return json!({"unavailable": format!("cannot start {bin}: {e}")}),
